@@ -1224,6 +1224,25 @@ def tree_dims(t, leafdims, reqs):
     if a != b: raise DimMismatch(op)
     return a
 
+def tree_encode(t, leafdims):
+    """prefix tokens for the Lean `Expr`, and the specification dimension (None once a mismatch occurred below)"""
+    P = lambda d: pows_str(d) or '-'
+    op = t[0]
+    if op == 'leaf': return ['L', P(leafdims[t[1]])], leafdims[t[1]]
+    ta, a = tree_encode(t[1], leafdims)
+    if len(t) == 2:
+        if op in ('neg', 'abs', 'sum', 'mean', 'max', 'item'): return ['U'] + ta, a
+        if op == 'sqrtabs': return ['S', 'U'] + ta, None if a is None else spec_pow(a, F(1, 2))
+        e = {'pow2': F(2), 'powm1': F(-1), 'pow3_2': F(3, 2), 'powhalf': F(1, 2)}[op]
+        return ['P', rat(e)] + (['U'] if op in ('pow3_2', 'powhalf') else []) + ta, None if a is None else spec_pow(a, e)
+    tb, b = tree_encode(t[2], leafdims)
+    bad = a is None or b is None
+    if op == 'mul': return ['M'] + ta + tb, None if bad else spec_mul(a, b)
+    if op == 'div': return ['D'] + ta + tb, None if bad else spec_div(a, b)
+    if op.endswith('_coerced'):
+        return ['A'] + ta + ['M'] + tb + ['L', P({} if bad else spec_div(a, b))], None if bad else a
+    return ['A'] + ta + tb, None if bad or a != b else a
+
 def tree_eval(SI, t, leaves, leafdims, quantities, scale=False):
     """evaluate with real Quantity objects (quantities=True) or with the plain payloads"""
     import numpy
@@ -1283,10 +1302,16 @@ def stream_compositions(c, SI, N):
         except DimMismatch as e: spec = ('mismatch', str(e))
         cases.append((fn, t, leafdims, vals, reqs, spec))
     flat = [r for case in cases for r, _ in case[4]]
-    ans = yield flat
+    whole = ['expr|' + ' '.join(tree_encode(case[1], case[2])[0]) for case in cases]
+    ans = yield flat + whole
+    ans_whole = ans[len(flat):]
     pos = 0; nbad = 0
-    for fn, t, leafdims, vals, reqs, spec in cases:
+    for icase, (fn, t, leafdims, vals, reqs, spec) in enumerate(cases):
         a = ans[pos:pos + len(reqs)]; pos += len(reqs)
+        mw = ans_whole[icase]
+        if (mw == 'err|dimension') != (spec[0] == 'mismatch') or (spec[0] == 'ok' and pows_parse(mw.split('|', 1)[1]) != spec[1]):
+            nbad += 1; c.broken_no_input('corr:composition-expr', 'the Lean expression model and exact arithmetic disagree on a whole tree',
+                                         dict(stream='compositions', tree=repr(t), leafdims=[pows_str(d) for d in leafdims], model=mw, request=whole[icase], spec=repr(spec)))
         c.case(('tree', repr(t), [pows_str(d) for d in leafdims]), nontrivial=t[0] != 'leaf')
         c.count('compose:' + ('function-arrays' if fn else 'numpy') + ':' + spec[0])
         replay = dict(stream='compositions', tree=repr(t), leafdims=[pows_str(d) for d in leafdims], leaves=[repr(v)[:80] for v in vals], spec=[spec[0], pows_str(spec[1]) if spec[0] == 'ok' else spec[1]])
